@@ -58,7 +58,9 @@ RDepth(r) == Cardinality({i \in 1..Len(r.stk) : r.stk[i].k \in ContainerKinds})
 
 (* classes of values: "null", "key" (bool int uid time string rid), "float", *)
 (* "other" (nan, containers, other arrays, media, custom), "ref"            *)
-RefKeyable(c) == c \in {"key", "float"}       \* what a key-position reference may name (DESIGN 5.7)
+(* what a reference may name, by where it stands: a map key names a        *)
+(* keyable object, an edge's source or destination anything but null       *)
+Satisfies(c, req) == CASE req = "any" -> TRUE [] req = "nonnull" -> c # "null" [] req = "key" -> c = "key"
 
 CountObj(r) == LET r1 == [r EXCEPT !.objs = @ + 1] IN
                IF r1.objs > r.lim.objs THEN RFail(r1, "limit") ELSE r1
@@ -101,7 +103,7 @@ Complete(r, c, kid) ==
       [] f.k = "mark" ->
            IF Cardinality(r.marks) + 1 > r.lim.refs THEN RFail(r, "limit")
            ELSE IF \E p \in r.marks : p[1] = f.id THEN RFail(r, "marker")
-           ELSE IF \E p \in r.pend : p[1] = f.id /\ p[2] /\ ~RefKeyable(c) THEN RFail(r, "marker")
+           ELSE IF \E p \in r.pend : p[1] = f.id /\ ~Satisfies(c, p[2]) THEN RFail(r, "marker")
            ELSE LET r1 == [RPop(r) EXCEPT !.marks = @ \cup {<<f.id, c>>},
                                           !.pend = {p \in @ : p[1] # f.id}]
                 IN Complete(r1, c, kid)
@@ -139,7 +141,7 @@ WholeArray(r, e) ==
                  [] OTHER -> TRUE
       okMT == e.m # "OnMedia" \/ e.mtok
       sized == e.m = "OnArray" \/ e.m = "OnMedia" \/ e.m = "OnCustomBinary"
-      okCount == ~sized \/ at \in RTextTypes \/ Len(e.bytes) = RBytes(at, e.count)
+      okCount == ~sized \/ Len(e.bytes) = RBytes(at, e.count)
       okText == at \notin RTextTypes \/ U8Valid(e.bytes)
   IN IF ~okAPI THEN RFail(r, "api")
      ELSE IF ~okMT THEN RFail(r, "array")
@@ -199,7 +201,7 @@ RefStep(r, e) ==
     [] m = "OnComment" -> IF e.pok THEN r ELSE RFail(r, "array")
     [] m = "OnNull" -> Scalar(r, "null", <<>>)
     [] m \in RKeyMethods -> IF e.sp = "nil" THEN Scalar(r, "null", <<>>)
-                            ELSE IF m = "OnTime" /\ ~e.pok THEN RFail(r, "array")
+                            ELSE IF m \in {"OnTime", "OnUID"} /\ ~e.pok THEN RFail(r, "array")
                             ELSE Scalar(r, "key", <<e.dt, e.k, <<>> >>)
     [] m \in RFloatMethods -> IF e.sp = "nil" THEN Scalar(r, "null", <<>>)
                               ELSE IF m = "OnBigFloat" /\ ~e.pok THEN RFail(r, "limit")
@@ -214,6 +216,7 @@ RefStep(r, e) ==
     [] m = "OnRecordType" ->
          LET r1 == RThen(CountObj(r), LAMBDA t : IdentOK(t, e)) IN
          RThen(r1, LAMBDA t : IF t.phase # "body" \/ Len(t.stk) # 0 THEN RFail(t, "structure")
+                              ELSE IF \E p \in t.rtypes : p[1] = e.id THEN RFail(t, "structure")
                               ELSE IF RDepth(t) + 1 > t.lim.depth THEN RFail(t, "limit")
                               ELSE RPush(t, [Frame("rtype") EXCEPT !.id = e.id]))
     [] m = "OnRecord" ->
@@ -232,11 +235,14 @@ RefStep(r, e) ==
     [] m = "OnReferenceLocal" ->
          LET r1 == RThen(RThen(IdentOK(r, e), LAMBDA t : CountObj(t)), LAMBDA t : Offer(t, "ref")) IN
          RThen(r1, LAMBDA t :
-           LET keypos == Len(t.stk) > 0 /\ RTop(t).k = "map" /\ RTop(t).pos % 2 = 0
+           LET req == IF Len(t.stk) = 0 THEN "any"
+                      ELSE IF RTop(t).k = "map" /\ RTop(t).pos % 2 = 0 THEN "key"
+                      ELSE IF RTop(t).k = "edge" /\ RTop(t).pos \in {0, 2} THEN "nonnull"
+                      ELSE "any"
            IN IF \E p \in t.marks : p[1] = e.id
-              THEN IF keypos /\ ~RefKeyable((CHOOSE p \in t.marks : p[1] = e.id)[2]) THEN RFail(t, "marker")
+              THEN IF ~Satisfies((CHOOSE p \in t.marks : p[1] = e.id)[2], req) THEN RFail(t, "marker")
                    ELSE Complete(t, "ref", <<>>)
-              ELSE Complete([t EXCEPT !.pend = @ \cup {<<e.id, keypos>>}], "ref", <<>>))
+              ELSE Complete([t EXCEPT !.pend = @ \cup {<<e.id, req>>}], "ref", <<>>))
     [] m \in RWholeArrays -> WholeArray(r, e)
     [] m \in RBegins -> BeginArrayR(r, e)
     [] m = "OnArrayChunk" -> ChunkR(r, e)
